@@ -76,8 +76,12 @@ func (eng *Engine) verifyFunction(fn *ssa.Function, modes Modes) (res *FnResult)
 	// a contract's modifies clause (default: nothing) is assumed by loop frames and by callers, so it is checked
 	// whenever the contract is; functions without contract are only assumed effect-free when a static analysis says so
 	g.checkFrame = modes.Frame || (modes.Post && ct != nil && !ct.Trusted && eng.specBySSA(fn) == nil)
-	if ct == nil && !modes.Frame {
-		g.modAll = !eng.effectFree(fn)
+	// functions without contract: default frame "a method may modify the object its pointer receiver points to, nothing
+	// else that existed at entry"; this default is assumed by loop frames and therefore always checked (frame obligations)
+	defaultFrame := ct == nil
+	if defaultFrame && hasLoops(fn) {
+		// the entry frame is only relied upon at loop heads
+		g.checkFrame = true
 	}
 	st0 := g.freshState("entry")
 	g.entry = st0
@@ -131,6 +135,13 @@ func (eng *Engine) verifyFunction(fn *ssa.Function, modes Modes) (res *FnResult)
 		n := g.havoc("fv_"+fv.Name(), "Ptr")
 		g.assume(fmt.Sprintf("(and (> (pref %s) 0) (< (pref %s) %s) (>= (poff %s) 0))", n, n, st0.Next, n))
 		top.preEnv[fv] = n
+	}
+	if defaultFrame && fn.Signature.Recv() != nil && len(args) > 0 {
+		if _, isPtr := fn.Params[0].Type().Underlying().(*types.Pointer); isPtr {
+			r := g.def("modref", "Int", fmt.Sprintf("(pref %s)", args[0]))
+			g.modRefs = []string{r}
+			g.modset = func(x string) string { return fmt.Sprintf("(= %s %s)", x, r) }
+		}
 	}
 	top.args = args
 	top.env = map[ssa.Value]string{}
